@@ -569,6 +569,67 @@ func Pss(args []string) {
 	r.Emit()
 }
 
+// Legacy: vh ts-legacy <beh.jsonl> — LegacyStamp behaviours on the real pkcs9.VerifyMicrosoftToken
+func Legacy(args []string) {
+	r := res.New()
+	type lb struct {
+		Tok struct {
+			Content  string `json:"content"`
+			DigestOf string `json:"digestOf"`
+			SigOk    bool   `json:"sigOk"`
+		} `json:"tok"`
+		Accepted bool `json:"accepted"`
+	}
+	var behs []lb
+	f, err := os.Open(args[0])
+	if err != nil {
+		panic(err)
+	}
+	sc := bufio.NewScanner(f)
+	for sc.Scan() {
+		if len(bytes.TrimSpace(sc.Bytes())) == 0 {
+			continue
+		}
+		var b lb
+		if err := json.Unmarshal(sc.Bytes(), &b); err != nil {
+			panic(err)
+		}
+		behs = append(behs, b)
+	}
+	f.Close()
+	r.Extra["behaviours_read"] = len(behs)
+	e := newEnv(r)
+	defer os.RemoveAll(e.dir)
+	val := map[string][]byte{"target": bytes.Repeat([]byte{0x5a}, 256), "other": bytes.Repeat([]byte{0xa5}, 256)}
+	for _, b := range behs {
+		for _, kn := range []string{"rsa", "ecdsa"} {
+			party := e.parties[kn]
+			shape := cmsx.Shape{Attrs: "sorted", NCerts: 2, Key: kn, NullParam: true, TimeForm: "utc", Algs: "one", Ber: "der"}
+			// the authority signs over the value named by digestOf; the content is then what the behaviour says
+			tok := cmsx.Build(shape, party, cmsx.BuildInput{ContentType: pkcs7.OidData, EContent: cmsx.TLV(0x04, val[b.Tok.DigestOf]), Time: e.now})
+			if b.Tok.Content != b.Tok.DigestOf {
+				tok = bytes.Replace(tok, val[b.Tok.DigestOf], val[b.Tok.Content], 1)
+			}
+			if !b.Tok.SigOk {
+				// damage the authority's signature value (last 256/70-odd bytes of the signer info): flip a bit near the end
+				tok[len(tok)-9] ^= 0x10
+			}
+			psd, err := pkcs7.Unmarshal(tok)
+			if err != nil {
+				panic(err)
+			}
+			_, verr := pkcs9.VerifyMicrosoftToken(psd, val["target"])
+			r.Eval(true)
+			if (verr == nil) != b.Accepted {
+				r.Fail(map[string]string{"engine": "ts-legacy", "kind": "legacy-token"}, b, "legacy timestamp token (%s authority; content=%s, message digest over %s, signature ok=%v) for the target signature value: relic says %v, the specification says accepted=%v",
+					kn, b.Tok.Content, b.Tok.DigestOf, b.Tok.SigOk, verr, b.Accepted)
+			}
+		}
+	}
+	os.RemoveAll(e.dir)
+	r.Emit()
+}
+
 // Replay: vh cms-replay <beh.jsonl> [max]
 func Replay(args []string) {
 	r := res.New()
